@@ -569,6 +569,13 @@ func runC12(o *Out, rng *RNG, tier string, replay string) {
 		}
 	}
 
+	// ---- (c'') NewChild racing with the parent's end (forced through a wrapping context, and free-running)
+	nRace := 4000
+	if thorough {
+		nRace = 100000
+	}
+	c12ChildRace(o, rng, nRace)
+
 	// ---- (d) random sequential histories on scope trees without listeners
 	nSeq := 500
 	if thorough {
